@@ -359,17 +359,28 @@ class Lifecycle:
 
         ret_adt = "actor_result::ActorResult"
 
+        def agg_value(bb, rv, store):
+            """An ActorResult aggregate as an abstract value: it may be built into a temporary (e.g. the return place of an
+            inlined constructor helper) and moved to the return place later."""
+            if rv["agg"] == "adt" and rv["adt"] == ret_adt:
+                fields = []
+                for name, op in zip(rv["fields"], rv["ops"]):
+                    v = ai._eval_operand(op, store)
+                    if v is None or v[0] == "agg":
+                        v = ("t", self.tr.norm(self.tr.operand(op)))
+                    fields.append((name, v))
+                return ("agg", (rv["variant"], tuple(fields), bb))
+            return None
+
         def on_assign(bb, i, st, store, flags, counters, extra):
             if st["place"]["l"] == 0 and not st["place"]["p"]:
                 rv = st["rv"]
                 if "agg" in rv and rv["agg"] == "adt" and rv["adt"] == ret_adt:
-                    fields = []
-                    for name, op in zip(rv["fields"], rv["ops"]):
-                        v = ai._eval_operand(op, store)
-                        if v is None:
-                            v = ("t", self.tr.norm(self.tr.operand(op)))
-                        fields.append((name, v))
-                    return (rv["variant"], tuple(fields), bb)
+                    return agg_value(bb, rv, store)[1]
+                if "use" in rv:
+                    v = ai._eval_operand(rv["use"], store)
+                    if v is not None and v[0] == "agg":
+                        return v[1]
                 return ("other", (), bb)
             return extra
 
@@ -424,7 +435,7 @@ class Lifecycle:
             return ()
 
         ai = AbsInt(self.body, self.cfg, self.tr, edge_labels=lambda bb: self.labels.get(bb), events=events, edge_filter=edge_filter,
-                    on_assign=on_assign, on_call=on_call, reset_at=[self.poll_fn_bb] if self.poll_fn_bb is not None else [],
+                    on_assign=on_assign, on_call=on_call, agg_value=agg_value, reset_at=[self.poll_fn_bb] if self.poll_fn_bb is not None else [],
                     reset_prefixes=("sel", "mbox_", "on_run_true", "on_run_false", "on_run_ok", "ctrl_none"),
                     reset_counters=("handle_message", "on_run"))
         ai.run()
